@@ -31,6 +31,7 @@ static const construct CONS[] = {
 	{ "math-dollar", "$", "$", "a ", 0 }, { "math-paren", "\\\\(", "\\\\)", "a ", 0 }, { "superscript", "^", "^", "a", 0 }, { "subscript", "~", "~", "a", 0 }, { "double-brace", "{{", "}}", "a", 0 },
 	{ "bare-bracket-run", "[ ", "] ", "", 0 }, { "quote-one-line", "> ", "", "", 0 }, { "strong-emph-lines", "*a **a\n", "a** a*\n", "", 0 },
 	{ "quote-staircase", NULL, NULL, NULL, 1 }, { "list-staircase", NULL, NULL, NULL, 2 }, { "definition-nest", NULL, NULL, NULL, 3 }, { "fence-in-list", NULL, NULL, NULL, 4 }, { "html-nest", "<div>", "</div>", "a", 0 },
+	{ "image-alt-paren-nest", NULL, NULL, NULL, 5 }, { "image-alt-bracket-nest", NULL, NULL, NULL, 6 }, { "link-text-quote-nest", NULL, NULL, NULL, 7 }, { "link-title-paren-nest", NULL, NULL, NULL, 8 },
 };
 #define NCONS ((int)(sizeof CONS / sizeof CONS[0]))
 static const long DEPTHS[] = { 10, 100, 1000, 10000, 100000, 1000000 };
@@ -42,6 +43,12 @@ static DString *gen_doc(int ci, int shape, long d) {
 	if (c->per_line == 2) { for (long i = 0; i < d && s->currentStringLength < 4000000; i++) { for (long j = 0; j < (i < 300 ? i : 300); j++) d_string_append_c(s, '\t'); d_string_append(s, "* a\n"); if (i >= 300) { for (long j = 0; j < d; j++) d_string_append_c(s, '\t'); d_string_append(s, "* b\n"); break; } } return s; }
 	if (c->per_line == 3) { d_string_append(s, "term\n"); for (long i = 0; i < d && i < 600; i++) { for (long j = 0; j < i; j++) d_string_append(s, "    "); d_string_append(s, ": def\n\n"); } return s; }
 	if (c->per_line == 4) { for (long i = 0; i < d && i < 2000; i++) { for (long j = 0; j < i; j++) d_string_append(s, "    "); d_string_append(s, "* a\n\n"); for (long j = 0; j <= i; j++) d_string_append(s, "    "); d_string_append(s, "```\n"); } return s; }
+	if (c->per_line >= 5) {      /* nesting inside the text, alt or title of a link / image */
+		const char *op = c->per_line == 5 || c->per_line == 8 ? "(a " : c->per_line == 6 ? "[a " : "\"a ", *cl = c->per_line == 5 || c->per_line == 8 ? " a)" : c->per_line == 6 ? " a]" : " a\"";
+		d_string_append(s, c->per_line == 7 ? "x [" : c->per_line == 8 ? "x [t](u \"" : "x ![");
+		for (long i = 0; i < d; i++) d_string_append(s, op); d_string_append(s, "b"); for (long i = 0; i < d; i++) d_string_append(s, cl);
+		d_string_append(s, c->per_line == 7 ? "](http://u/)\n" : c->per_line == 8 ? "\")\n" : "](i.png)\n"); return s;
+	}
 	if (shape != 2) for (long i = 0; i < d; i++) { d_string_append(s, c->op); d_string_append(s, c->sep); }
 	d_string_append(s, "b ");
 	if (shape != 0 && c->cl[0]) for (long i = 0; i < d; i++) { d_string_append(s, c->sep); d_string_append(s, c->cl); }
@@ -156,7 +163,7 @@ int main(int argc, char **argv) {
 	if (cl) { char *copy = strdup(cl); for (char *p = strtok(copy, "\n"); p; p = strtok(NULL, "\n")) { FILE *f = fopen(p, "rb"); if (!f) continue; fseek(f, 0, SEEK_END); long n = ftell(f); rewind(f); unsigned char *b = malloc(n + 3); if (fread(b, 1, n, f) != (size_t)n) { fclose(f); continue; } fclose(f); b[n] = '\n'; b[n + 1] = '\n'; b[n + 2] = 0; if (memchr(b, 0, n) || strstr((char *)b, "{{TOC")) { free(b); continue; }   /* k copies of a TOC make the OUTPUT quadratic by definition */ const char *bn = strrchr(p, '/'); snprintf(nm, sizeof nm, "corpus:%.50s", bn ? bn + 1 : p); add_seed(nm, b, n + 2); } }
 	if (thorough) { KMAX = 64; }
 	k_level L[] = {
-		{ "q_stack", (uint64_t)NCONS * 5 * 3 * NSW, run_stack, desc_stack, "q", "33 nesting constructs x {openers only, matched, closers only} x depth {10,100,1e3,1e4,1e5} x {html,latex,fodt,opml,itmz,critic accept,critic reject,opml import}" },
+		{ "q_stack", (uint64_t)NCONS * 5 * 3 * NSW, run_stack, desc_stack, "q", "37 nesting constructs x {openers only, matched, closers only} x depth {10,100,1e3,1e4,1e5} x {html,latex,fodt,opml,itmz,critic accept,critic reject,opml import}" },
 		{ "t_stack", (uint64_t)NCONS * 6 * 3 * NSW, run_stack, desc_stack, "t", "same grid with depths up to 1e5 and 1e6" },
 #ifdef VP_COST
 		{ "cost", (uint64_t)n_seeds * 12, run_cost, desc_cost, "qt", "seeds (every line kind, block/pathological seeds, prefix/unit/suffix seeds, corpus documents) x {html,latex,fodt,opml} x {default, random ids + obfuscation + complete, compatibility}: cost(d^2k)/cost(d^k) <= 2.6 for doubling k" },
